@@ -421,6 +421,7 @@ def reclaim_layer(ctx):
     real runtime (T2 machine of C01: real context switches, done_fiber slots, work stealing): join/detach-heavy
     programs, judged by the reclaim oracle (destroy events, quarantined + poisoned control blocks, join results)."""
     from vf.props import C01
+    C01.lint_obligation(ctx)
     exe = C01.build(ctx)
     if not exe:
         return
